@@ -12,4 +12,5 @@ json.dump({"property":prop,"breaks":prop,"needs_to_manifest":needs,"caught_by":c
  "origin":"fresh sub-agent given only the property text and a scratch worktree"},open(d+"/meta.json","w"),indent=1)
 PY
 git -C /repo worktree remove --force /tmp/seed-$ID 2>/dev/null; rm -rf /tmp/seed-$ID-out
+rm -f /verif/bin/vcheck-*-_tmp_seed_$ID /verif/harness/go.alt_tmp_seed_$ID.*
 echo kept $D
